@@ -58,8 +58,13 @@ impl Instant {
 pub trait AccessTime {
     spec fn sp_last_accessed(&self) -> Option<Instant>;
     spec fn sp_last_modified(&self) -> Option<Instant>;
+    /// `false` for the node kind whose setter is `unreachable!()` (src/unsync.rs)
+    spec fn sp_may_set_accessed(&self) -> bool;
+    spec fn sp_may_set_modified(&self) -> bool;
     fn last_accessed(&self) -> (r: Option<Instant>) ensures r == self.sp_last_accessed();
+    fn set_last_accessed(&mut self, timestamp: Instant) requires old(self).sp_may_set_accessed();
     fn last_modified(&self) -> (r: Option<Instant>) ensures r == self.sp_last_modified();
+    fn set_last_modified(&mut self, timestamp: Instant) requires old(self).sp_may_set_modified();
 }
 
 pub struct N { pub id: int, pub key: KeyId, pub hash: u64 }
@@ -126,40 +131,120 @@ impl<K, V> ValueEntry<K, V> {
 impl<K, V> AccessTime for ValueEntry<K, V> {
     open spec fn sp_last_accessed(&self) -> Option<Instant> { if self.ao().is_some() { self.ta() } else { None } }
     open spec fn sp_last_modified(&self) -> Option<Instant> { if self.wo().is_some() { self.tm() } else { None } }
+    open spec fn sp_may_set_accessed(&self) -> bool { true }
+    open spec fn sp_may_set_modified(&self) -> bool { true }
     #[verifier::external_body]
     fn last_accessed(&self) -> (r: Option<Instant>) { unimplemented!() }
     #[verifier::external_body]
+    fn set_last_accessed(&mut self, timestamp: Instant) { unimplemented!() }
+    #[verifier::external_body]
     fn last_modified(&self) -> (r: Option<Instant>) { unimplemented!() }
+    #[verifier::external_body]
+    fn set_last_modified(&mut self, timestamp: Instant) { unimplemented!() }
 }
 
-pub struct KeyDate<K> { pub key: Rc<K>, pub timestamp: Option<Instant> }
-impl<K> KeyDate<K> {
-    pub fn new(key: Rc<K>, timestamp: Option<Instant>) -> (r: Self) ensures r.key == key, r.timestamp == timestamp { Self { key, timestamp } }
+//@@ STRUCT file=src/unsync.rs name=KeyDate
+pub struct KeyDate<K> {
+    pub key: Rc<K>,
+    pub timestamp: Option<Instant>,
 }
-pub struct KeyHashDate<K> { pub key: Rc<K>, pub hash: u64, pub timestamp: Option<Instant> }
+//@@ END
+impl<K> KeyDate<K> {
+//@@ FN file=src/unsync.rs owner=KeyDate name=new tags=C05,C11
+    pub(crate) fn new(key: Rc<K>, timestamp: Option<Instant>) -> /*@+*/(r:/*@-*/ Self/*@+*/)/*@-*/
+        ensures r.key == key, r.timestamp == timestamp //@ [C05,C11]
+    {
+        Self { key, timestamp }
+    }
+//@@ END
+}
+//@@ STRUCT file=src/unsync.rs name=KeyHashDate
+pub struct KeyHashDate<K> {
+    pub key: Rc<K>,
+    pub hash: u64,
+    pub timestamp: Option<Instant>,
+}
+//@@ END
 impl<K> KeyHashDate<K> {
-    pub fn new(key: Rc<K>, hash: u64, timestamp: Option<Instant>) -> (r: Self) ensures r.key == key, r.hash == hash, r.timestamp == timestamp { Self { key, hash, timestamp } }
+//@@ FN file=src/unsync.rs owner=KeyHashDate name=new tags=C06,C11,C13
+    pub(crate) fn new(key: Rc<K>, hash: u64, timestamp: Option<Instant>) -> /*@+*/(r:/*@-*/ Self/*@+*/)/*@-*/
+        ensures r.key == key, r.hash == hash, r.timestamp == timestamp //@ [C06,C11,C13]
+    {
+        Self {
+            key,
+            hash,
+            timestamp,
+        }
+    }
+//@@ END
 }
 #[verifier::reject_recursive_types(T)]
 pub struct DeqNode<T> { pub element: T, pub ident: Ghost<int> }
 impl<T> DeqNode<T> { pub open spec fn node_id(&self) -> int { self.ident@ } }
-/// a list node's own timestamp is read through a raw pointer: uninterpreted here, tied to the owning entry's stamp by the
-/// two coupling axioms `axiom_stamp_ao` / `axiom_stamp_wo` below (the only places where the model says what such a read gives)
-impl<K> AccessTime for DeqNode<KeyHashDate<K>> {
-    uninterp spec fn sp_last_accessed(&self) -> Option<Instant>;
-    open spec fn sp_last_modified(&self) -> Option<Instant> { None }
-    #[verifier::external_body]
-    fn last_accessed(&self) -> (r: Option<Instant>) { unimplemented!() }
-    #[verifier::external_body]
-    fn last_modified(&self) -> (r: Option<Instant>) { unimplemented!() }
-}
+/// src/unsync.rs, real text: a list node's stamp is the `timestamp` field of its element; it is tied to the owning ENTRY's
+/// stamp by the two coupling axioms `axiom_stamp_ao` / `axiom_stamp_wo` below. The `unreachable!()` setters are proved
+/// unreachable (`sp_may_set_* == false` for that node kind: no caller under contract may call them).
 impl<K> AccessTime for DeqNode<KeyDate<K>> {
     open spec fn sp_last_accessed(&self) -> Option<Instant> { None }
-    uninterp spec fn sp_last_modified(&self) -> Option<Instant>;
-    #[verifier::external_body]
-    fn last_accessed(&self) -> (r: Option<Instant>) { unimplemented!() }
-    #[verifier::external_body]
-    fn last_modified(&self) -> (r: Option<Instant>) { unimplemented!() }
+    open spec fn sp_last_modified(&self) -> Option<Instant> { self.element.timestamp }
+    open spec fn sp_may_set_accessed(&self) -> bool { false }
+    open spec fn sp_may_set_modified(&self) -> bool { true }
+//@@ FN file=src/unsync.rs owner=AccessTime for DeqNode<KeyDate<K>> name=last_accessed tags=C06,C08
+    fn last_accessed(&self) -> /*@+*/(r:/*@-*/ Option<Instant>/*@+*/)/*@-*/
+    {
+        None
+    }
+//@@ END
+//@@ FN file=src/unsync.rs owner=AccessTime for DeqNode<KeyDate<K>> name=set_last_accessed tags=C08
+    fn set_last_accessed(&mut self, _timestamp: Instant)
+    {
+        unreachable!();
+    }
+//@@ END
+//@@ FN file=src/unsync.rs owner=AccessTime for DeqNode<KeyDate<K>> name=last_modified tags=C05
+    fn last_modified(&self) -> /*@+*/(r:/*@-*/ Option<Instant>/*@+*/)/*@-*/
+    {
+        self.element.timestamp
+    }
+//@@ END
+//@@ FN file=src/unsync.rs owner=AccessTime for DeqNode<KeyDate<K>> name=set_last_modified tags=C05
+    fn set_last_modified(&mut self, timestamp: Instant)
+        ensures final(self).element.timestamp == Some(timestamp), final(self).element.key == old(self).element.key, final(self).ident == old(self).ident //@ [C05]
+    {
+        self.element.timestamp = Some(timestamp);
+    }
+//@@ END
+}
+impl<K> AccessTime for DeqNode<KeyHashDate<K>> {
+    open spec fn sp_last_accessed(&self) -> Option<Instant> { self.element.timestamp }
+    open spec fn sp_last_modified(&self) -> Option<Instant> { None }
+    open spec fn sp_may_set_accessed(&self) -> bool { true }
+    open spec fn sp_may_set_modified(&self) -> bool { false }
+//@@ FN file=src/unsync.rs owner=AccessTime for DeqNode<KeyHashDate<K>> name=last_accessed tags=C06
+    fn last_accessed(&self) -> /*@+*/(r:/*@-*/ Option<Instant>/*@+*/)/*@-*/
+    {
+        self.element.timestamp
+    }
+//@@ END
+//@@ FN file=src/unsync.rs owner=AccessTime for DeqNode<KeyHashDate<K>> name=set_last_accessed tags=C06
+    fn set_last_accessed(&mut self, timestamp: Instant)
+        ensures final(self).element.timestamp == Some(timestamp), final(self).element.key == old(self).element.key, final(self).element.hash == old(self).element.hash, final(self).ident == old(self).ident //@ [C06]
+    {
+        self.element.timestamp = Some(timestamp);
+    }
+//@@ END
+//@@ FN file=src/unsync.rs owner=AccessTime for DeqNode<KeyHashDate<K>> name=last_modified tags=C05,C08
+    fn last_modified(&self) -> /*@+*/(r:/*@-*/ Option<Instant>/*@+*/)/*@-*/
+    {
+        None
+    }
+//@@ END
+//@@ FN file=src/unsync.rs owner=AccessTime for DeqNode<KeyHashDate<K>> name=set_last_modified tags=C08
+    fn set_last_modified(&mut self, _timestamp: Instant)
+    {
+        unreachable!();
+    }
+//@@ END
 }
 
 #[verifier::external_body]
@@ -2284,6 +2369,8 @@ where
 
 //@@ FN file=src/unsync/cache.rs owner=Cache name=should_enable_frequency_sketch tags=C14
     fn should_enable_frequency_sketch(&self) -> /*@+*/(r:/*@-*/ bool/*@+*/)/*@-*/
+        // once, when a bounded cache is half full
+        ensures r == (!self.frequency_sketch_enabled && self.max_capacity.is_some() && self.weighted_size >= self.max_capacity.unwrap() / 2) //@ [C13,C14]
     {
         if self.frequency_sketch_enabled {
             false
